@@ -7,6 +7,34 @@ from .. import opgen
 from .c02 import first_diff
 
 
+def ref_encode(st):
+    """reference encoding of a reported state (serde JSON layout = rpugen value tree)"""
+    from .. import rpugen as G
+    t = json.loads(json.dumps(st))
+    m = t.get("rpu_data_mapping")
+    if m:
+        for c in m["curves"]:
+            n = c["num_pivots_minus2"] + 1
+            has_p, has_m = "poly_order_minus1" in c, "mmr_order_minus1" in c
+            if has_p == has_m:
+                raise ValueError("mixed or missing mapping method")
+            c["_pieces"] = ["poly" if has_p else "mmr"] * n
+            if has_p and len(c.get("linear_interp_flag", [])) < n:
+                c["linear_interp_flag"] = [False] * n
+    if t["header"]["coefficient_data_type"] != 0:
+        raise ValueError("integer parts not part of the bitstream")
+    d = t.get("vdr_dm_data")
+    if d:
+        for name in ("cmv29_metadata", "cmv40_metadata"):
+            for b in (d.get(name) or {}).get("ext_metadata_blocks", []):
+                (k, v), = b.items()
+                lv = int(k[5:])
+                for fname, width, *rest in G.BLOCK_FIELDS.get(lv, []):
+                    if fname in v and width > 0 and not (0 <= v[fname] < (1 << width)):
+                        raise ValueError("unrepresentable")
+    return G.encode(t)
+
+
 def strip_for_compare(st):
     """in-memory state vs decoded output: what cannot differ legitimately is kept"""
     s = json.loads(json.dumps(st))
@@ -90,6 +118,16 @@ def run(res):
             res.violation("emitted RPU decodes to different metadata at %s: held %s, decoded %s (after `%s`)" % (d[0], json.dumps(d[1])[:120], json.dumps(d[2])[:120], " ".join(l.split()[3:])[:200]),
                           {"op": "seq", "case": l, "field": d[0], "impl": o[:3000]})
         written.append((l, c))
+        # independent reference encoder (tools/rpugen.py) applied to the in-memory state must give
+        # the very bytes the tool wrote (length bytes, counts, zero padding, CRC included)
+        try:
+            exp = ref_encode(c[1])
+        except Exception:
+            exp = None
+        if exp is not None and exp != out.rstrip(b"\x00"):
+            k = next((j for j, (a, b) in enumerate(zip(exp, out)) if a != b), min(len(exp), len(out)))
+            res.violation("emitted RPU differs from the reference encoding of the in-memory metadata at byte %d (after `%s`)" % (k, " ".join(l.split()[3:])[:200]),
+                          {"op": "seq", "case": l, "impl": o[:3000], "reference": exp.hex()})
     # independent decoder: the Coq model parses what the implementation wrote
     pl = ["parse rpu " + (RC.SC4 + C.unhexs(c[2])).hex() for l, c in written]
     pm = C.run_sharded(C.model, pl)
